@@ -33,6 +33,24 @@ def run(rep, tier, seed):
         b.add('%s:%s:%s' % (stack, klass, 'accepted' if out[0] == 'OK' else 'rejected'), pc.model_line(stack, bits), out, pc.parse_model, fails,
               dict(layer='parser', op='parse', stack=stack, bits=bits), key=(stack, bits))
     b.run()
+    # stacks a caller assembles himself from the public header parsers, the same protocol possibly twice (IP-in-IP tunnels): every header
+    # of the packet must be in the field list, once, in order -- fields + payload spell the packet
+    from gens import gen_tunnel, b2s
+    from core import bits_of
+    for k in range(40 if tier == 'quick' else 400):
+        o = impl_outcome(lambda: gen_tunnel(rnd, k))
+        rep.count('custom-stack:tunnel', key=('tun', k))
+        rep.oracle_evals += 1
+        if o[0] != 'OK':
+            rep.violation('property', 'a packet parser assembled from two IP header parsers, UDP and CoAP rejects a well-formed tunnel packet: %s' % o[1], dict(layer='parser', op='custom-stack', k=k))
+            break
+        name, pkt, pd = o[1]
+        cat = ''.join(bits_of(f.value) for f in pd.fields) + bits_of(pd.payload)
+        nver = sum(1 for f in pd.fields if str(getattr(f.id, 'value', f.id)).endswith(':Version'))
+        if cat != b2s(pkt) or nver != 3:
+            rep.violation('property', '%s: fields + payload spell %d bits of a %d-bit packet; %d version fields (two IP headers and CoAP expected)' % (name, len(cat), len(pkt) * 8, nver),
+                          dict(layer='parser', op='custom-stack', name=name, packet=pkt.hex()))
+            break
 
 
 def replay(case):
